@@ -312,8 +312,21 @@ func projectElemMatch(ctx Context, doc bsonkit.Doc, _, path string, v interface{
 		Expression: ExpressionQueryOperators,
 	}
 
+	// a query on fields (no operators) only applies to embedded documents
+	fieldQuery := true
+	for _, exp := range query {
+		if len(exp.Key) > 0 && exp.Key[0] == '$' {
+			fieldQuery = false
+		}
+	}
+
 	// find first matching element
 	for _, item := range array {
+		// skip items that are not documents for field queries
+		if _, isDoc := item.(bson.D); fieldQuery && !isDoc {
+			continue
+		}
+
 		virtual := bson.D{
 			bson.E{Key: "item", Value: item},
 		}
